@@ -1,11 +1,14 @@
 package props
 
 import (
+	"bytes"
+	"encoding/binary"
 	"fmt"
 	"io"
 	"os"
 
 	"dsim/core"
+	"dsim/simdisk"
 
 	"github.com/diskfs/go-diskfs/filesystem"
 )
@@ -38,7 +41,7 @@ func (c10) Components() map[string][]string {
 	}
 }
 func (c10) ProbeNames() []string {
-	ps := []string{"read-at-eof", "seek-negative-target", "seek-past-eof", "read-after-close", "zero-len-read", "file-with-holes", "file-beyond-4GiB"}
+	ps := []string{"read-at-eof", "seek-negative-target", "seek-past-eof", "read-after-close", "zero-len-read", "file-with-holes", "file-beyond-4GiB", "squashfs-sparse-block"}
 	for _, k := range fsKinds {
 		ps = append(ps, "kind-"+k)
 	}
@@ -171,6 +174,19 @@ func (p c10) Exec(t *core.Trace) *core.Result {
 		far = &imgEntry{Path: "FAR.DAT", Data: core.PatternBytes(uint64(t.I("tag"))+2, 16384), FarOff: 5<<30 + 4096*int64(t.I("tag")%7)}
 		tree = append(tree, *far)
 	}
+	// a file with a sparse block between two data blocks, on the uncompressed squashfs image (made sparse below, the
+	// way mksquashfs stores an all-zero block: size word 0, no data)
+	var sparse3 []byte
+	if kind == "squashfs-nocomp" && unit >= 4096 && unit <= 1<<17 && t.I("tag")%2 == 0 {
+		sparse3 = make([]byte, 3*unit)
+		copy(sparse3, core.PatternBytes(uint64(t.I("tag"))+31, unit))
+		copy(sparse3[2*unit:], core.PatternBytes(uint64(t.I("tag"))+32, unit))
+		for i := int64(0); i < unit; i += 64 { // (no zero page inside the data blocks, nothing compressible to confuse the search)
+			sparse3[i] |= 1
+			sparse3[2*unit+i] |= 1
+		}
+		tree = append(tree, imgEntry{Path: "SPARSE3.BIN", Data: sparse3})
+	}
 	fail := func(i int, clause, trig, locus, detail string) *core.Result {
 		res.V = &core.Violation{Clause: "C10." + clause, Trigger: kindFamily(kind) + ":" + trig, Locus: locus, Detail: detail, OpIndex: i}
 		return res
@@ -190,6 +206,13 @@ func (p c10) Exec(t *core.Trace) *core.Result {
 		return res
 	}
 	res.Probe("kind-" + kind)
+	if sparse3 != nil {
+		if c10MakeSparse(bi.D, start, bi.Size, unit, sparse3) {
+			res.Probe("squashfs-sparse-block")
+		} else {
+			sparse3 = nil
+		}
+	}
 	var fs filesystem.FileSystem
 	var err error
 	if pk, pv, loc, _ := core.Guard(func() { fs, err = bi.Open(bi.D.Clone()) }); pk {
@@ -409,6 +432,12 @@ func (p c10) Exec(t *core.Trace) *core.Result {
 	if !closed {
 		core.Guard(func() { f.Close() })
 	}
+	if sparse3 != nil {
+		if r := c10Plain(res, fs, bi.PathOf("SPARSE3.BIN"), sparse3, unit, uint64(t.I("tag")), fail, locus); r != nil {
+			return r
+		}
+		hist = core.Mix(hist, 78)
+	}
 	if far != nil {
 		if r := c10Far(res, fs, bi.PathOf(far.Path), far, uint64(t.I("tag")), fail, locus); r != nil {
 			return r
@@ -550,6 +579,89 @@ func c10Far(res *core.Result, fs filesystem.FileSystem, path string, e *imgEntry
 			if pos == size && n == 0 {
 				return fail(-1, "eof-not-reported", "read(far)", locus+".Read", fmt.Sprintf("Read at the end (%d) returned (0, nil)", size))
 			}
+		}
+	}
+	return nil
+}
+
+// c10MakeSparse rewrites the stored form of a three-block file (data, zeros, data) of an uncompressed squashfs
+// image: the third block moves up over the stored zeros and the size word of the second block becomes 0.
+func c10MakeSparse(d *simdisk.Disk, start, size, unit int64, content []byte) bool {
+	img := d.Peek(start, size)
+	a := bytes.Index(img, content[:unit])
+	if a < 0 || bytes.Index(img[a+1:], content[:unit]) >= 0 || int64(a)+3*unit > size {
+		return false
+	}
+	if !bytes.Equal(img[int64(a)+2*unit:int64(a)+3*unit], content[2*unit:]) {
+		return false
+	}
+	word := make([]byte, 4)
+	binary.LittleEndian.PutUint32(word, uint32(unit)|1<<24)
+	list := bytes.Repeat(word, 3)
+	l := bytes.Index(img, list)
+	if l < 0 || bytes.Index(img[l+1:], list) >= 0 {
+		return false
+	}
+	d.Poke(start+int64(a)+unit, content[2*unit:])
+	d.Poke(start+int64(l)+4, []byte{0, 0, 0, 0})
+	return true
+}
+
+// c10Plain checks a file of known content: one pass from the start in pieces of seeded length, then seeded
+// Seek/Read pairs (around the block boundaries most of all).
+func c10Plain(res *core.Result, fs filesystem.FileSystem, path string, content []byte, unit int64, tag uint64, fail func(int, string, string, string, string) *core.Result, locus string) *core.Result {
+	var f filesystem.File
+	var err error
+	if pk, pv, loc, _ := core.Guard(func() { f, err = fs.OpenFile(path, os.O_RDONLY) }); pk {
+		return fail(-1, "panic", "open(sparse):"+core.PanicClass(pv), loc, fmt.Sprint(pv))
+	}
+	if err != nil {
+		return fail(-1, "open-file", "open(sparse)", locus, fmt.Sprintf("OpenFile(%q): %v", path, err))
+	}
+	defer func() { core.Guard(func() { f.Close() }) }()
+	r := core.NewRng(tag ^ 0x59a)
+	size := int64(len(content))
+	pos := int64(0)
+	readAt := func(want int64, trig string) *core.Result {
+		buf := make([]byte, want)
+		var n int
+		if pk, pv, loc, _ := core.Guard(func() { n, err = f.Read(buf) }); pk {
+			return fail(-1, "panic", trig+":"+core.PanicClass(pv), loc, fmt.Sprint(pv))
+		}
+		res.Steps++
+		res.Evals++
+		if n < 0 || int64(n) > want || pos+int64(n) > size {
+			return fail(-1, "read-count", trig, locus+".Read", fmt.Sprintf("Read of %d bytes at %d of a %d-byte file returned n=%d", want, pos, size, n))
+		}
+		if !bytes.Equal(buf[:n], content[pos:pos+int64(n)]) {
+			return fail(-1, "wrong-bytes", trig, locus+".Read", fmt.Sprintf("Read of %d bytes at %d of a %d-byte file (blocks of %d: data, hole, data): %s", want, pos, size, unit, diffDesc(buf[:n], content[pos:pos+int64(n)])))
+		}
+		pos += int64(n)
+		if err != nil && err != io.EOF {
+			return fail(-1, "read-error", trig, locus+".Read", fmt.Sprintf("Read at %d of a %d-byte file: %v", pos, size, err))
+		}
+		if err == io.EOF && pos != size {
+			return fail(-1, "early-eof", trig, locus+".Read", fmt.Sprintf("io.EOF at position %d of a %d-byte file", pos, size))
+		}
+		return nil
+	}
+	for guard := 0; pos < size && guard < 4000; guard++ {
+		if rr := readAt(core.PickOf[int64](r, 1, 100, unit/2+1, unit, unit+1, 2*unit), "read(sparse,sequential)"); rr != nil {
+			return rr
+		}
+	}
+	for k := 0; k < 10; k++ {
+		target := core.PickOf[int64](r, 0, unit-1, unit, unit+1, 2*unit-1, 2*unit, 2*unit+1, size-1, r.Range(0, size-1))
+		var np int64
+		if pk, pv, loc, _ := core.Guard(func() { np, err = f.Seek(target, io.SeekStart) }); pk {
+			return fail(-1, "panic", "seek(sparse):"+core.PanicClass(pv), loc, fmt.Sprint(pv))
+		}
+		if err != nil || np != target {
+			return fail(-1, "seek-position", "seek(sparse)", locus+".Seek", fmt.Sprintf("Seek(%d, start) returned (%d, %v)", target, np, err))
+		}
+		pos = target
+		if rr := readAt(core.PickOf[int64](r, 1, 100, unit, unit+7), "read(sparse,after-seek)"); rr != nil {
+			return rr
 		}
 	}
 	return nil
